@@ -98,9 +98,25 @@ def run(ctx, with_resize=True):
                construct='getter:forget-then-fallible', sites=[ctx.where(b, blk.term.line)])
         ctx.ob('R01.2', 'forget() not inside a loop', not in_cycle(ban, blk.idx), ctx.where(b, blk.term.line),
                'forget() can execute more than once per call', construct='getter:forget-in-loop')
+    # the permit handed *by value* to a local function of the getter (`try_create(timeouts, permit)`): whether that function
+    # forgets it exactly on its success exits and lets it drop on the others is a summary this rule does not compute - the
+    # clauses about where the getter itself forgets / holds the permit are then not decided (no alarm); the ledger
+    # (R01.9) still follows the permit through the call
+    handed = []
+    for b in managed_bodies(prog):
+        if b.path not in r.GETTER:
+            continue
+        for blk in b.blocks:
+            t = blk.term
+            if t.kind == 'call' and not blk.cleanup and t.rcallee in prog.bodies and (t.rcallee.startswith('deadpool::managed') or t.rcallee.startswith('<deadpool::managed')) and \
+                    any(a.kind == 'move' and PERMIT_ADT in b.locals[a.place.local]['parts']['adts'] and '*' not in a.place.proj for a in t.args) and \
+                    not (t.dest is not None and PERMIT_ADT in _ty_adts(b, t.dest)) and not (t.callee_names() & {'tokio::sync::SemaphorePermit::forget', 'std::mem::drop'}):
+                handed.append((b, blk, t.rcallee))
+    if handed:
+        ctx.undecide('R01.2', 'the permit is handed by value to %s: where it is forgotten / held is decided inside that function - not followed' % handed[0][2])
     # every success exit passes through exactly the forget site(s)
     fblocks = [blk.idx for b, blk in g_forgets if b.path == root.path]
-    for bb, cls, det in oks:
+    for bb, cls, det in (oks if not handed else []):
         reach_wo = an.reach([0], ('normal',), avoid=fblocks)
         ok = bb not in reach_wo and bool(fblocks)
         ctx.ob('R01.2', 'success exit passes permit.forget()', ok, ctx.where(root, root.blocks[bb].term.line),
@@ -128,6 +144,8 @@ def run(ctx, with_resize=True):
                 continue
             if any(n.endswith('FromResidual::from_residual') for n in names):
                 continue
+            if any(blk is hb for _, hb, _ in handed):
+                continue
             ctx.ob('R01.2', 'permit-carrying value consumed by unknown callee', False, ctx.where(b, t.line),
                    'callee %s takes a value containing a SemaphorePermit and does not return it (leak?)' % '/'.join(sorted(names)),
                    construct='permit-consumer:' + '/'.join(sorted(names)))
@@ -138,7 +156,7 @@ def run(ctx, with_resize=True):
     n_y_held = 0
     first_pop_doms = None
     loop_yields = []
-    for y in ys:
+    for y in (ys if not handed else []):
         # a suspension point lies after the acquisition iff a pop dominates it or it is reachable from a pop
         after_acq = any(b.path == root.path and y.idx in an.reach_after(blk.idx, ('normal',)) for b, blk, m in pops)
         if after_acq:
@@ -148,7 +166,8 @@ def run(ctx, with_resize=True):
             ctx.ob('R01.3', 'permit held across suspension point', held, ctx.where(root, y.term.line),
                    'get() can be suspended (and cancelled) here without owning its permit' if not held else '',
                    construct='getter:yield-without-permit', sites=[ctx.where(root, y.term.line)])
-    ctx.floor('R01.3', 'suspension points of timeout_get after the acquisition', len(loop_yields), 2)
+    if not handed:
+        ctx.floor('R01.3', 'suspension points of timeout_get after the acquisition', len(loop_yields), 2)
 
     # ---- R01.4 add_permits on the pool semaphore --------------------------
     allowed = {b.path for b in r.RETURN} | {b.path for b in r.TAKE} | {r.RESIZE.path}
@@ -180,7 +199,9 @@ def run(ctx, with_resize=True):
         # released - otherwise a waiter woken by the permit finds the queue empty and creates one object too many
         if b.path in {h.path for h in r.RETURN} and b.path not in {h.path for h in r.TAKE}:
             pushes = [x.idx for x, m in queue_calls(r, b, ban) if m.startswith('push')]
-            okp = bool(pushes) and blk.idx not in ban.reach([0], ('normal',), avoid=pushes)
+            # (arms that contradict a dominating test of the same relation - a shared helper re-testing it - are not paths)
+            dead_ = [tg for sw_, tg in contradicted_arms(ban, r, b) if sum(1 for x_ in b.blocks if tg in ban.succs(x_.idx, ('normal',))) == 1]
+            okp = bool(pushes) and blk.idx not in ban.reach([0], ('normal',), avoid=pushes + dead_)
             ctx.ob('R01.4', 'a returned object is queued before its permit is released', okp, ctx.where(b, blk.term.line),
                    'add_permits can run before the object has been pushed: a woken get() pops nothing and creates an object beyond max_size' if not okp else '',
                    construct='permit-before-push:' + b.name)
